@@ -6,6 +6,7 @@
 import Grenad.Model.Meta
 import Grenad.Model.IO
 import Grenad.Proofs.Wave3IO
+import Grenad.Proofs.MetaIOProofs
 
 namespace Grenad.Props.C13
 
@@ -265,3 +266,96 @@ open Grenad.Props.C13
 #print axioms C13_writer_crash_short
 #print axioms C13_writer_crash_strict
 end Audit
+
+/-! ### Opening through a source that may fail (`Grenad.Model.MetaIO`) -/
+
+namespace Grenad.Props.C13
+
+open Grenad Grenad.IOM Grenad.Meta Grenad.MetaIO
+
+/-- **Open under an arbitrary read schedule (C12 style).**
+    (a) No fault in the schedule: no I/O fault is reported.
+    (b) A reported fault tag `t` is exactly the first fault of the schedule — everything consumed
+        before it was fault-free — and the open returns `Err(Io)`: the fault is neither swallowed
+        nor converted into `InvalidFormatVersion` / `InvalidCompressionType` / a `Metadata`.
+    (c) If the open reaches the first fault of the schedule (consumes the schedule beyond it), it
+        reports that fault's tag, returns `Err(Io)`, and has consumed nothing after the fault. -/
+theorem C13_open_fault (b : Bytes) (sch : List RResp) :
+    let r := parseIO b sch
+    (RFaultFree sch → r.2.2 = none) ∧
+    (∀ t, r.2.2 = some t →
+      r.1 = .error .io ∧ ∃ used, RFaultFree used ∧ sch = used ++ .fail t :: r.2.1) ∧
+    (∀ pre t post, RFaultFree pre → sch = pre ++ .fail t :: post →
+      r.2.1.length ≤ post.length → r.2.2 = some t ∧ r.1 = .error .io ∧ r.2.1 = post) := by
+  obtain ⟨used, hu, hc⟩ := parseIO_char b sch
+  have hff0 : RFaultFree sch → (parseIO b sch).2.2 = none := fun hff => (parseIO_ff hff b).2.1
+  generalize parseIO b sch = r at hc hff0 ⊢
+  refine ⟨hff0, ?_, ?_⟩
+  · intro t ht
+    rcases hc with ⟨e, _⟩ | ⟨t', e, hs, hr⟩
+    · rw [e] at ht; cases ht
+    · rw [e] at ht; cases ht
+      exact ⟨hr, used, hu, hs⟩
+  · intro pre t post hpre hsch hlen
+    rcases hc with ⟨_, hs, _⟩ | ⟨t', e, hs, hr⟩
+    · exact (rfault_not_passed hu (hsch ▸ hs) hlen).elim
+    · obtain ⟨_, e2, e3⟩ := rfirst_fail_unique _ _ hpre hu (hsch ▸ hs)
+      exact ⟨by rw [e, e2], hr, e3.symm⟩
+
+/-- **Never a wrong answer.**  For *any* schedule (faults included) the open either returns
+    exactly what the pure parse returns, or returns `Err(Io)` together with the tag of the fault
+    that caused it.  In particular it never returns `Ok` with fields other than those of
+    `parse b`, and never a `badMagic`/`badCodec` verdict the bytes do not justify. -/
+theorem C13_open_never_wrong (b : Bytes) (sch : List RResp) :
+    (parseIO b sch).1 = parse b ∨
+    ((parseIO b sch).1 = .error .io ∧ (parseIO b sch).2.2.isSome) := by
+  obtain ⟨used, hu, hc⟩ := parseIO_char b sch
+  rcases hc with ⟨_, _, hr⟩ | ⟨t, e, _, hr⟩
+  · exact .inl hr
+  · exact .inr ⟨hr, by rw [e]; rfl⟩
+
+/-- An `Ok` through any schedule is the `Ok` of the pure parse. -/
+theorem C13_open_ok_sound (b : Bytes) (sch : List RResp) (m : Meta)
+    (h : (parseIO b sch).1 = .ok m) : parse b = .ok m := by
+  rcases C13_open_never_wrong b sch with e | ⟨e, _⟩
+  · rw [← e, h]
+  · rw [e] at h; cases h
+
+/-- **C16, open through the I/O layer.**  Whatever the schedule, every `read_exact(want)` call
+    `(pos, want)` the open issues lies within the last 22 bytes of the data and inside the data;
+    the `want`s — hence the bytes read, each call delivering at most `want` bytes
+    (`C11.readExact_never_wrong`) — sum to at most 22, and to at most the byte count of the
+    pure accounting `Meta.openIO` (`C16_open`). -/
+theorem C16_open_io (b : Bytes) (sch : List RResp) :
+    (∀ p ∈ parseIOReads b sch, b.length - 22 ≤ p.1 ∧ p.1 + p.2 ≤ b.length) ∧
+    ((parseIOReads b sch).map Prod.snd).sum ≤ 22 ∧
+    ((parseIOReads b sch).map Prod.snd).sum ≤ (openIO b).2.1 :=
+  parseIOReads_bounds b sch
+
+/-- a V2 trailer behind two payload bytes; the fault hits the 10th `read` call, inside
+    `read_u64(index_block_offset)`: `Err(Io)` with tag 7, the rest of the schedule untouched -/
+example : parseIO ([1, 2] ++ [7, 0, 0, 0, 0, 0, 0, 0, 5, 3, 0, 0, 0, 0, 0, 0, 0, 2, 0xC4, 0xD4, 0x23, 0x67])
+      (List.replicate 9 (.serve 1) ++ [.fail 7, .serve 1, .fail 8]) =
+    (.error .io, [.serve 1, .fail 8], some 7) := by
+  simp [parseIO, parseIOL, readExact, List.replicate, leVal, magicV1, magicV2]
+
+/-- the reads issued before that fault: the magic, then the first `read_u64` -/
+example : parseIOReads ([1, 2] ++ [7, 0, 0, 0, 0, 0, 0, 0, 5, 3, 0, 0, 0, 0, 0, 0, 0, 2, 0xC4, 0xD4, 0x23, 0x67])
+      (List.replicate 9 (.serve 1) ++ [.fail 7, .serve 1, .fail 8]) = [(20, 4), (2, 8)] := by
+  simp [parseIOReads, parseIOL, readExact, List.replicate, leVal, magicV1, magicV2]
+
+/-- an invalid codec id (9) is reported right after `read_u8`, before the entry count is read:
+    three `read_exact` calls, 13 bytes -/
+example : parseIOL [7, 0, 0, 0, 0, 0, 0, 0, 9, 3, 0, 0, 0, 0, 0, 0, 0, 2, 0xC4, 0xD4, 0x23, 0x67] [] =
+    (.error .badCodec, [], none, [(18, 4), (0, 8), (8, 1)]) := by
+  simp [parseIOL, readExact, leVal, magicV1, magicV2]
+
+end Grenad.Props.C13
+
+section AuditOpen
+open Grenad.Props.C13
+#print axioms C13_open_fault
+#print axioms C13_open_never_wrong
+#print axioms C13_open_ok_sound
+#print axioms C16_open_io
+end AuditOpen
